@@ -2925,6 +2925,41 @@ class StateEngine(object):
                 state with updated start until we have finished processing
                 all items in items_path.
                 """
+                """
+                Evaluate the effective input of every iteration of this batch
+                before anything is launched or any state is changed, so that a
+                failure (e.g. in the ItemSelector) leaves nothing half done for
+                this Map state's Retry and Catch to deal with.
+                """
+                batch_start = get_start_index(context)
+                batch_end = min(batch_start + max_concurrency, length)
+                batch_parameters = []
+                for index, item in enumerate(
+                    items_path[batch_start:batch_end], start=batch_start
+                ):
+                    if item_selector:
+                        # Store the index and value in the context as described above.
+                        context["Map"] = {
+                            "Item": {
+                                "Index": index,
+                                "Value": item,
+                            },
+                        }
+                        try:
+                            batch_parameters.append(
+                                evaluate_payload_template(
+                                    input, context, item_selector
+                                )
+                            )
+                        finally:
+                            del context["Map"]  # Delete after parameters have been processed
+                    else:
+                        """
+                        If no parameters are supplied the effective input to the
+                        iteration is the current item i.e $$.Map.Item.Value
+                        """
+                        batch_parameters.append(item)
+
                 if length and not "Branch" in context_state:
                     context_state["Branch"] = []
 
@@ -2969,12 +3004,17 @@ class StateEngine(object):
 
                 end = min(start + max_concurrency, length)
 
+                """
+                The retry information is carried by the iterations, so it is
+                only taken out of the context when there are iterations (an
+                empty Map state completes, or fails, here and now).
+                """
                 retry_count = None
                 retry_timeout = None
-                if "RetryCount" in context_state:
+                if length and "RetryCount" in context_state:
                     retry_count = context_state["RetryCount"]
                     del context_state["RetryCount"]
-                if "RetryTimeout" in context_state:
+                if length and "RetryTimeout" in context_state:
                     retry_timeout = context_state["RetryTimeout"]
                     del context_state["RetryTimeout"]
 
@@ -2993,32 +3033,7 @@ class StateEngine(object):
                     context_state["Name"] = map_state_name
                     context_state["EnteredTime"] = map_state_entered
 
-                    if item_selector:
-                        # Store the index and value in the context as described above.
-                        context["Map"] = {
-                            "Item": {
-                                "Index": index,
-                                "Value": item,
-                            },
-                        }
-
-                        """
-                        https://states-language.net/spec.html#using-paths
-
-                        If the “Parameters” field is provided, its value, after
-                        extraction and embedding, becomes the effective input.
-                        """
-                        parameters = evaluate_payload_template(
-                            input, context, item_selector
-                        )
-
-                        del context["Map"]  # Delete after parameters have been processed
-                    else:
-                        """
-                        If no parameters are supplied the effective input to the
-                        iteration is the current item i.e $$.Map.Item.Value
-                        """
-                        parameters = item
+                    parameters = batch_parameters[index - start]
 
 
                     event["data"] = parameters
